@@ -424,6 +424,36 @@ def run(M, c):
                 if secs:
                     lo_, hi_ = (base, x) if sign > 0 else (x, base)
                     _expect_humans(M, "DateTime", s, P.Interval(lo_, hi_), loc, other is None, sign > 0, absolute)
+                if i % 9 == 0 and secs:
+                    # other operand kinds for the reference: pendulum DateTime / native date / native datetime given to a
+                    # Date, native aware datetime given to a DateTime, native time given to a Time
+                    nd = sign * (secs // 86400 + 1)
+                    d0 = P.Date(2021, 6, 15)
+                    d1 = d0.add(days=nd)
+                    lo_, hi_ = (d0, d1) if nd > 0 else (d1, d0)
+                    for oname, oth in (("pendulum-datetime", P.DateTime(2021, 6, 15, 9, 30, tzinfo=P.UTC)), ("native-date", dt.date(2021, 6, 15)),
+                                       ("native-datetime", dt.datetime(2021, 6, 15, 9, 30)), ("pendulum-naive-datetime", P.DateTime(2021, 6, 15, 23, 59))):
+                        M.current = {"k": "human-mixed", "loc": loc, "days": nd, "other": oname, "abs": absolute}
+                        try:
+                            s2 = d1.diff_for_humans(oth, absolute=absolute, locale=loc)     # totality contract records a raise
+                        except Exception:  # noqa: BLE001
+                            continue
+                        _expect_humans(M, "Date-vs-" + oname, s2, P.Interval(lo_, hi_), loc, False, nd > 0, absolute)
+                    nat = dt.datetime(2021, 6, 15, 12, 0, 0, tzinfo=dt.timezone.utc)
+                    M.current = {"k": "human-mixed", "loc": loc, "secs": sign * secs, "other": "native-aware-datetime", "abs": absolute}
+                    try:
+                        s3 = x.diff_for_humans(nat, absolute=absolute, locale=loc)
+                        lo2, hi2 = (base, x) if sign > 0 else (x, base)
+                        _expect_humans(M, "DateTime-vs-native", s3, P.Interval(lo2, hi2), loc, False, sign > 0, absolute)
+                    except Exception:  # noqa: BLE001
+                        pass
+                    tsec = (43200 + sign * (secs % 40000 + 1)) % 86400
+                    M.current = {"k": "human-mixed", "loc": loc, "tsec": tsec, "other": "native-time", "abs": absolute}
+                    try:
+                        s4 = P.Time(tsec // 3600, tsec // 60 % 60, tsec % 60).diff_for_humans(dt.time(12, 0, 0), absolute=absolute, locale=loc)
+                        _expect_humans(M, "Time-vs-native", s4, P.duration(seconds=abs(tsec - 43200)), loc, False, tsec > 43200, absolute)
+                    except Exception:  # noqa: BLE001
+                        pass
                 if i % 7 == 0:
                     d = P.Date(2021, 6, 15).add(days=sign * (secs // 86400 + 1))
                     try:
